@@ -551,6 +551,11 @@ UNIFY_SHAPE = (
 )
 
 
+TV_CAN_BE_ASSIGNED_SHAPE = "[If(test=Compare(left=Name(id='left', ctx=Load()), ops=[Eq()], comparators=[Name(id='self', ctx=Load())]), body=[Return(value=Dict(keys=[], values=[]))], orelse=[]), If(test=Call(func=Name(id='isinstance', ctx=Load()), args=[Name(id='left', ctx=Load()), Name(id='TypeVarValue', ctx=Load())], keywords=[]), body=[Assign(targets=[Name(id='bounds', ctx=Store())], value=List(elts=[Starred(value=Call(func=Attribute(value=Name(id='self', ctx=Load()), attr='get_inherent_bounds', ctx=Load()), args=[], keywords=[]), ctx=Load()), Starred(value=Call(func=Attribute(value=Name(id='left', ctx=Load()), attr='get_inherent_bounds', ctx=Load()), args=[], keywords=[]), ctx=Load())], ctx=Load()))], orelse=[Assign(targets=[Name(id='bounds', ctx=Store())], value=List(elts=[Call(func=Name(id='UpperBound', ctx=Load()), args=[Attribute(value=Name(id='self', ctx=Load()), attr='typevar', ctx=Load()), Name(id='left', ctx=Load())], keywords=[]), Starred(value=Call(func=Attribute(value=Name(id='self', ctx=Load()), attr='get_inherent_bounds', ctx=Load()), args=[], keywords=[]), ctx=Load())], ctx=Load()))]), Return(value=Call(func=Attribute(value=Name(id='self', ctx=Load()), attr='make_bounds_map', ctx=Load()), args=[Name(id='bounds', ctx=Load()), Name(id='left', ctx=Load()), Name(id='ctx', ctx=Load())], keywords=[]))]"
+
+INTERSECT_SHAPE = "[AnnAssign(target=Name(id='intermediate', ctx=Store()), annotation=Subscript(value=Name(id='dict', ctx=Load()), slice=Tuple(elts=[Name(id='TypeVarLike', ctx=Load()), Subscript(value=Name(id='dict', ctx=Load()), slice=Tuple(elts=[Subscript(value=Name(id='tuple', ctx=Load()), slice=Tuple(elts=[Name(id='Bound', ctx=Load()), Constant(value=Ellipsis)], ctx=Load()), ctx=Load()), Constant(value=None)], ctx=Load()), ctx=Load())], ctx=Load()), ctx=Load()), value=Dict(keys=[], values=[]), simple=1), For(target=Name(id='bounds_map', ctx=Store()), iter=Name(id='bounds_maps', ctx=Load()), body=[For(target=Tuple(elts=[Name(id='tv', ctx=Store()), Name(id='bounds', ctx=Store())], ctx=Store()), iter=Call(func=Attribute(value=Name(id='bounds_map', ctx=Load()), attr='items', ctx=Load()), args=[], keywords=[]), body=[Assign(targets=[Subscript(value=Call(func=Attribute(value=Name(id='intermediate', ctx=Load()), attr='setdefault', ctx=Load()), args=[Name(id='tv', ctx=Load()), Dict(keys=[], values=[])], keywords=[]), slice=Call(func=Name(id='tuple', ctx=Load()), args=[Name(id='bounds', ctx=Load())], keywords=[]), ctx=Store())], value=Constant(value=None))], orelse=[])], orelse=[]), Return(value=DictComp(key=Name(id='tv', ctx=Load()), value=IfExp(test=Compare(left=Call(func=Name(id='len', ctx=Load()), args=[Name(id='bound_lists', ctx=Load())], keywords=[]), ops=[Gt()], comparators=[Constant(value=1)]), body=List(elts=[Call(func=Name(id='OrBound', ctx=Load()), args=[Call(func=Name(id='tuple', ctx=Load()), args=[Name(id='bound_lists', ctx=Load())], keywords=[])], keywords=[])], ctx=Load()), orelse=Call(func=Name(id='next', ctx=Load()), args=[Call(func=Name(id='iter', ctx=Load()), args=[Name(id='bound_lists', ctx=Load())], keywords=[])], keywords=[])), generators=[comprehension(target=Tuple(elts=[Name(id='tv', ctx=Store()), Name(id='bound_lists', ctx=Store())], ctx=Store()), iter=Call(func=Attribute(value=Name(id='intermediate', ctx=Load()), attr='items', ctx=Load()), args=[], keywords=[]), ifs=[Call(func=Name(id='all', ctx=Load()), args=[GeneratorExp(elt=Compare(left=Name(id='tv', ctx=Load()), ops=[In()], comparators=[Name(id='bounds_map', ctx=Load())]), generators=[comprehension(target=Name(id='bounds_map', ctx=Store()), iter=Name(id='bounds_maps', ctx=Load()), ifs=[], is_async=0)])], keywords=[])], is_async=0)]))]"
+
+
 def _dump_body(fn):
     return "[" + ", ".join(ast.dump(s) for s in _body(fn)) + "]"
 
@@ -578,6 +583,9 @@ def translate(repo="/repo"):
         check_shape(_find_fn(tvv, "can_assign"), TV_CAN_ASSIGN_SHAPE, "TypeVarValue.can_assign", broken)
         check_shape(_find_fn(tvv, "make_bounds_map"), MAKE_BOUNDS_MAP_SHAPE, "TypeVarValue.make_bounds_map", broken)
         check_shape(_find_fn(vmod, "unify_bounds_maps"), UNIFY_SHAPE, "value.unify_bounds_maps", broken)
+        # upper bounds (callback parameters) and OrBound generation (union-annotated parameters)
+        check_shape(_find_fn(tvv, "can_be_assigned"), TV_CAN_BE_ASSIGNED_SHAPE, "TypeVarValue.can_be_assigned", broken)
+        check_shape(_find_fn(vmod, "intersect_bounds_maps"), INTERSECT_SHAPE, "value.intersect_bounds_maps", broken)
     except TranslateError as ex:
         broken.append(str(ex))
     shape_ok = "true" if not broken else "false"
@@ -604,7 +612,7 @@ Section Solve.
 End Solve.
 
 (* resolve_bounds_map, Value.is_assignable, TypeVarValue.get_inherent_bounds / can_assign /
-   make_bounds_map and unify_bounds_maps still have the statement shape the model was written for
+   make_bounds_map / can_be_assigned, unify_bounds_maps and intersect_bounds_maps still have the statement shape the model was written for
    ({shape_note}) *)
 Definition bound_generation_shape_ok : bool := {shape_ok}.
 """
